@@ -1,9 +1,9 @@
 """property id -> rules, explanation of what is / is not decided"""
-from rules import r_hist, r_lock, r_errdrop, r_coord, r_keyid, r_opcode, r_doaction, r_cancel, r_idle, r_loop, r_traverse, r_repeat, r_chv2, r_wait, r_macro, r_seq, r_override, r_reload, r_pipeline, r_dynmacro, r_vkey, r_layers, r_panic, r_prodcons, r_span, r_rec, r_evict, r_coordspace, r_loopvar, r_depth, r_countdown, r_accessor, r_scratch, r_sticky, r_buildall, r_tickorder, r_custom
+from rules import r_hist, r_lock, r_errdrop, r_coord, r_keyid, r_opcode, r_doaction, r_cancel, r_idle, r_loop, r_traverse, r_repeat, r_chv2, r_wait, r_macro, r_seq, r_override, r_reload, r_pipeline, r_dynmacro, r_vkey, r_layers, r_panic, r_prodcons, r_span, r_rec, r_evict, r_coordspace, r_loopvar, r_depth, r_countdown, r_accessor, r_scratch, r_sticky, r_buildall, r_tickorder, r_custom, r_statesorder, r_srckeys, r_iterwhole
 
 PROPS = {
     "C01": {
-        "rules": [r_coord.run, r_doaction.rule_state_push, r_cancel.run, r_cancel.rule_owed, r_chv2.rule_rel, r_evict.run, r_countdown.run, r_tickorder.rule_wait_gate, r_cancel.rule_retain_all, r_tickorder.rule_queue_trans, r_custom.run],
+        "rules": [r_coord.run, r_doaction.rule_state_push, r_cancel.run, r_cancel.rule_owed, r_chv2.rule_rel, r_evict.run, r_countdown.run, r_tickorder.rule_wait_gate, r_cancel.rule_retain_all, r_tickorder.rule_queue_trans, r_custom.run, r_scratch.run],
         "explanation": "Decides structural clauses of 'no stuck output': (R-COORD) every State variant created at a "
                        "coordinate is removable by Release at that coordinate and the three coordinate predicates agree; "
                        "(R-STATE-PUSH) arms of do_action that create coordinate-keyed state do so on every path and the custom "
@@ -11,7 +11,7 @@ PROPS = {
         "not_decided": "bounded-time liveness over all histories; diff logic prev_keys/cur_keys; timeout arithmetic",
     },
     "C02": {
-        "rules": [r_panic.run_rt, r_prodcons.run, r_rec.run_rt, r_coordspace.run, r_lock.run, r_opcode.run_all, r_loopvar.run_rt, r_tickorder.rule_rpt_order, r_tickorder.rule_rpt_queue, r_tickorder.rule_queue_trans],
+        "rules": [r_panic.run_rt, r_prodcons.run, r_rec.run_rt, r_coordspace.run, r_lock.run, r_opcode.run_all, r_loopvar.run_rt, r_tickorder.rule_rpt_order, r_tickorder.rule_rpt_queue, r_tickorder.rule_queue_trans, r_srckeys.run],
         "explanation": "Decides: (R-PANIC/rt) every panic-capable site (bounds check, slice/Vec index, unsigned subtraction, narrow "
                        "addition/multiplication, negation, division, shift, unwrap/expect, assert!/unreachable!/panic!) in the "
                        "functions reachable from the event/tick entry points is either discharged by the guard data-flow (constant "
@@ -34,7 +34,7 @@ PROPS = {
                        "caller's own action, never from stored state (except the reviewed defsrc row)",
     },
     "C03": {
-        "rules": [r_panic.run_parse, r_span.run, r_rec.run_parse, r_coordspace.run, r_errdrop.run, r_opcode.run_all, r_loopvar.run_parse, r_depth.run],
+        "rules": [r_panic.run_parse, r_span.run, r_rec.run_parse, r_coordspace.run, r_errdrop.run, r_opcode.run_all, r_loopvar.run_parse, r_depth.run, r_span.rule_own_text],
         "explanation": "Decides: (R-SPAN) the lexer only compares bytes with ASCII constants, Span/Position are built or modified "
                        "only in the s-expression module, the single post-hoc span adjustment is guarded by a test selecting exactly "
                        "one lexer message, and text is indexed by a span only through Index<Span> on that span's own file_content(); "
@@ -74,7 +74,7 @@ PROPS = {
                        "keys — value-level",
     },
     "C06": {
-        "rules": [r_doaction.rule_osh_arms, r_doaction.rule_osh_repress, r_evict.run_c06, r_countdown.run, r_custom.run],
+        "rules": [r_doaction.rule_osh_arms, r_doaction.rule_osh_repress, r_evict.run_c06, r_countdown.run, r_custom.run, r_doaction.rule_osh_end, r_iterwhole.run_for("C06")],
         "explanation": "Decides: every arm of do_action (21 Action variants) notifies the one-shot state machine of the press, "
                        "delegates to an inner action, or defers the action (R-OSH-ARMS); macro Press/Tap events notify too. (R-COUNTDOWN) the "
                        "one-shot timeout, like every count-down timer on the tick path, expires on its level: it is never decremented "
@@ -83,7 +83,7 @@ PROPS = {
         "not_decided": "which key is 'the next one', timeout arithmetic, stacking semantics — run-time values",
     },
     "C11": {
-        "rules": [r_keyid.run_all, r_layers.rule_mapped, r_coordspace.run, r_reload.rule_globals, r_buildall.run_for("C11"), r_keyid.rule_defsrc_identity],
+        "rules": [r_keyid.run_all, r_layers.rule_mapped, r_coordspace.run, r_reload.rule_globals, r_buildall.run_for("C11"), r_keyid.rule_defsrc_identity, r_keyid.rule_btn_tables],
         "level": "proof",
         "explanation": "Decides: (a) OsCode and KeyCode have identical discriminant sets and are repr(u16) — the exact soundness "
                        "condition of every enum transmute in the analysed crates, which are enumerated; (b) each arm n of "
@@ -108,7 +108,7 @@ PROPS = {
                        "table's semantic reasons are reviewed, not machine-checked",
     },
     "C08": {
-        "rules": [r_macro.run_all, r_cancel.run, r_cancel.rule_owed, r_evict.run_c08, r_scratch.run, r_macro.rule_evicted_release],
+        "rules": [r_macro.run_all, r_cancel.run, r_cancel.rule_owed, r_evict.run_c08, r_scratch.run, r_macro.rule_evicted_release, r_statesorder.run],
         "explanation": "Decides: (R-MACRO-BAL) the macro compiler parse_macro_item_impl emits, on every path to an Ok return, a "
                        "Release event from the same source for every Press event it emits (single keys, output chords, held "
                        "modifier groups); (R-CANCEL) each of the sites that clear the running macros also removes the macro-held "
@@ -118,7 +118,7 @@ PROPS = {
                        "(see C01/C02 R-EVICT) — run-time values",
     },
     "C09": {
-        "rules": [r_traverse.run_chords, r_chv2.run_all, r_buildall.run_for("C09"), r_traverse.run_rebuild],
+        "rules": [r_traverse.run_chords, r_chv2.run_all, r_buildall.run_for("C09"), r_traverse.run_rebuild, r_iterwhole.run_for("C09")],
         "explanation": "Narrow: (R-CHV2-REL) v2: release bookkeeping dominates every wholesale removal from the v2 queue, active "
                        "chords leave only via clear_released_chords which queues their virtual Release; (R-CHV2-DISABLED) every "
                        "chord-selecting lookup in process_presses filters on disabled layers (sibling agreement); (R-CH1-GUARD) v1: "
@@ -147,7 +147,7 @@ PROPS = {
         "not_decided": "longest-match selection, substitution and restoration — computations over run-time key lists",
     },
     "C15": {
-        "rules": [r_reload.run_all, r_reload.rule_runtime],
+        "rules": [r_reload.run_all, r_reload.rule_runtime, r_reload.rule_index, r_idle.run_idle_counter],
         "explanation": "Decides: (R-RELOAD-ATOMIC) every write to kanata's state, MAPPED_KEYS, zippychord and the output options in "
                        "do_live_reload lies in the region dominated by the Ok arm of cfg::new_from_file, and no `?` exit is "
                        "reachable after the first such write; (R-RELOAD-FIELDS) each Kanata field whose start-up initialiser "
@@ -159,7 +159,7 @@ PROPS = {
                        "scroll states, recorded macros is deliberately retained); file index selection arithmetic",
     },
     "C16": {
-        "rules": [r_pipeline.run, r_pipeline.run_template, r_pipeline.run_vars, r_pipeline.run_layer_lists, r_sticky.run, r_pipeline.run_rawmatch, r_buildall.run_for("C16")],
+        "rules": [r_pipeline.run, r_pipeline.run_template, r_pipeline.run_vars, r_pipeline.run_layer_lists, r_sticky.run, r_pipeline.run_rawmatch, r_buildall.run_for("C16"), r_span.rule_own_text],
         "explanation": "Narrow: decides the ordering preconditions of transparent indirection — the pre-processing stages are chained "
                        "include -> platform -> env -> template, each consuming the previous stage's result (data-flow order of the "
                        "and_then chain), parse_vars runs after pre-processing and dominates every parser that (transitively) "
@@ -168,7 +168,7 @@ PROPS = {
                        "(e.g. simultaneous vs sequential parameter substitution) — relations between two programs",
     },
     "C14": {
-        "rules": [r_traverse.run_repeat, r_repeat.run_outputs, r_repeat.run, r_repeat.run_collect, r_scratch.run, r_buildall.run_for("C14"), r_keyid.rule_gate, r_repeat.run_scan],
+        "rules": [r_traverse.run_repeat, r_repeat.run_outputs, r_repeat.run, r_repeat.run_collect, r_scratch.run, r_buildall.run_for("C14"), r_keyid.rule_gate, r_repeat.run_scan, r_repeat.rule_kc_output, r_seq.rule_hidden],
         "explanation": "Decides: the repeat-table builder passes every nested action of every Action variant (derived from the "
                        "type) to its recursion and records every key-code-bearing variant (R-TRAVERSE, R-RPT-TABLE); in "
                        "handle_repeat_actual every write of a repeat is reachable only through a 'key currently held' test, at "
@@ -189,7 +189,7 @@ PROPS = {
                        "compression numerics — these are functions of run-time values",
     },
     "C18": {
-        "rules": [r_vkey.run_all, r_coord.run, r_macro.rule_seq_custom, r_buildall.run_for("C18")],
+        "rules": [r_vkey.run_all, r_coord.run, r_macro.rule_seq_custom, r_buildall.run_for("C18"), r_idle.run_idle_counter],
         "explanation": "Narrow: (R-VK-SINGLE) FakeKeyAction is interpreted only in handle_fakekey_action, which every trigger path "
                        "(key press, key release, on-idle, TCP) calls, and each of press/release/tap/toggle produces layout events; "
                        "(R-COORD) toggle's 'is it pressed' predicate covers exactly the State variants that carry a coordinate; "
@@ -198,7 +198,7 @@ PROPS = {
         "not_decided": "D-1/D/D+1 timing of hold-for-duration and on-idle; idle measurement — run-time values",
     },
     "C19": {
-        "rules": [r_dynmacro.run_all, r_dynmacro.rule_delay_reset],
+        "rules": [r_dynmacro.run_all, r_dynmacro.rule_delay_reset, r_dynmacro.rule_save_id],
         "explanation": "Decides: (R-DM-RELEASE) in record_press / begin_record_macro / stop_macro every returned recording is "
                        "dominated by add_release_for_all_unreleased_presses and nothing that writes macro_items runs between that "
                        "call and the return; (R-DM-REC) in play_macro every queueing of replay items is dominated by inserting the "
